@@ -328,6 +328,30 @@ func c16TieCases() []*pairCase {
 		}
 	}
 
+	// Several anchors of one kind with real names (ASA users) that share a
+	// referenced object on the device and get separate ones in the target:
+	// who is processed first decides who edits the shared object in place.
+	for _, k := range []int{2, 3, 6} {
+		dev := "group-policy VPN-users-DRC-0 internal\ngroup-policy VPN-users-DRC-0 attributes\n banner value Welcome\n vpn-idle-timeout 60\n"
+		spoc := ""
+		for i := 0; i < k; i++ {
+			u := fmt.Sprintf("user%c", 'a'+i)
+			dev += fmt.Sprintf("username %s nopassword\nusername %s attributes\n service-type remote-access\n vpn-group-policy VPN-users-DRC-0\n", u, u)
+			spoc += fmt.Sprintf("group-policy VPN-%s internal\ngroup-policy VPN-%s attributes\n banner value Welcome\n vpn-idle-timeout %d\n", u, u, 30*(i+1)+5)
+			spoc += fmt.Sprintf("username %s nopassword\nusername %s attributes\n service-type remote-access\n vpn-group-policy VPN-%s\n", u, u, u)
+		}
+		add("ASA", "asa-users-share-group-policy-on-device", dev, map[string]string{"router": spoc})
+		// ... and the other way round: separate policies on the device, one in the target.
+		dev2, spoc2 := "", "group-policy VPN-users internal\ngroup-policy VPN-users attributes\n banner value Welcome\n vpn-idle-timeout 60\n"
+		for i := 0; i < k; i++ {
+			u := fmt.Sprintf("user%c", 'a'+i)
+			dev2 += fmt.Sprintf("group-policy VPN-%s-DRC-0 internal\ngroup-policy VPN-%s-DRC-0 attributes\n banner value Welcome\n vpn-idle-timeout %d\n", u, u, 30*(i+1)+5)
+			dev2 += fmt.Sprintf("username %s nopassword\nusername %s attributes\n service-type remote-access\n vpn-group-policy VPN-%s-DRC-0\n", u, u, u)
+			spoc2 += fmt.Sprintf("username %s nopassword\nusername %s attributes\n service-type remote-access\n vpn-group-policy VPN-users\n", u, u)
+		}
+		add("ASA", "asa-users-get-one-shared-group-policy", dev2, map[string]string{"router": spoc2})
+	}
+
 	// Several input problems of one kind at once: which one is reported
 	// must not change from run to run.
 	{
